@@ -6,7 +6,7 @@ use crate::cov::{pos_class, Cov};
 use crate::events::*;
 use crate::math;
 use crate::refhpke::{self, RefCtx};
-use crate::shim::{self, Draw, ScriptRng, ShimOp};
+use crate::shim::{self, ScriptRng, ShimOp};
 use crate::suites::*;
 use crate::util::{hex, short_hex};
 use std::collections::{HashMap, HashSet};
@@ -369,9 +369,9 @@ impl World {
             return Err(self.viol("setup_s.zero-dh-accepted", "Err(EncapError): a Diffie-Hellman result is all-zero".into(), format!("Ok(enc={})", hex(&enc))));
         }
         if self.is(&[P::C02, P::C03, P::C14, P::C18]) {
-            let want = vec![Draw::Fill(nsk)];
-            if rng.draws != want {
-                return Err(self.viol("setup_s.rng-draws", format!("{:?}", want), format!("{:?}", rng.draws)));
+            let want_bytes = nsk;
+            if rng.total_bytes() != want_bytes {
+                return Err(self.viol("setup_s.rng-draws", format!("exactly Nsk = {} bytes drawn from the caller\'s RNG", want_bytes), format!("{} bytes: {:?}", rng.total_bytes(), rng.draws)));
             }
         }
         let mut aead_key = None;
